@@ -360,18 +360,24 @@ def pyValueC (vars : List Linked) (cs : CState) : Src → Except PyErr (Int × L
     | none => .error .badIndex
   | .const k => .ok (k, cs.caches)
 
-def pyStepC (vars : List Linked) (cs : CState) : Op → Except PyErr CState
-  | .get j i => do
-    let (v, caches) ← pyValueC vars cs (.var i)
-    pure ⟨{ cs.st with dvs := cs.st.dvs.set j v }, caches⟩
-  | .set d src => do
-    let (v, caches) ← pyValueC vars cs src           -- the right-hand side is evaluated first
-    let (l, s, caches) ← setterStart vars caches d
-    match pyStoreAt l.var.size cs.st s v with
-    | some st => pure ⟨st, caches⟩
-    | none => .error .structError
+/-- one statement; an error carries the accessor bindings made before it was raised (they stay on the objects) -/
+def pyStepC (vars : List Linked) (cs : CState) : Op → Except (PyErr × List PvCache) CState
+  | .get j i =>
+    match pyValueC vars cs (.var i) with
+    | .error e => .error (e, cs.caches)
+    | .ok (v, caches) => .ok ⟨{ cs.st with dvs := cs.st.dvs.set j v }, caches⟩
+  | .set d src =>
+    match pyValueC vars cs src with                  -- the right-hand side is evaluated first
+    | .error e => .error (e, cs.caches)
+    | .ok (v, caches) =>
+      match setterStart vars caches d with
+      | .error e => .error (e, caches)
+      | .ok (l, s, caches) =>
+        match pyStoreAt l.var.size cs.st s v with     -- `self.set = set` precedes `set(device, value)`
+        | some st => .ok ⟨st, caches⟩
+        | none => .error (.structError, caches)
 
-def pyRunC (vars : List Linked) (cs : CState) : List Op → Except PyErr CState
+def pyRunC (vars : List Linked) (cs : CState) : List Op → Except (PyErr × List PvCache) CState
   | [] => .ok cs
   | o :: os =>
     match pyStepC vars cs o with
